@@ -1338,6 +1338,24 @@ pub fn c03_run(seed: u64, i: u64, tier: Tier, mon: &mut Mon, found: &mut Vec<Fou
             if i < 3 {
                 mon.samples_push(|| serde_json::json!({"run": i, "engine": "E-HIST", "workload": "robustness", "case": case}));
             }
+            // the single-shot entry points (value and datum) on the same bytes and source
+            if let Workload::Any { input } = &case.workload {
+                let api = if rng.coin() { crate::stream::Api::Value } else { crate::stream::Api::Datum };
+                let plan = match &case.source {
+                    Source::Stream(p) => p.clone(),
+                    _ => ReadPlan::benign(),
+                };
+                let sc = crate::stream::StreamCase { opts: opts_ix, api, input: input.clone(), plan };
+                mon.before_case(|| serde_json::to_string(&AnyCase::Stream(sc.clone())).unwrap_or_default());
+                let before = mon.violations.len();
+                let mut refs = crate::stream::Refs::new();
+                crate::stream::check_str_vs_slice(&sc, &mut refs, mon);
+                crate::stream::check_stream_case(&sc, &mut refs, mon);
+                mon.count("c03.single_shot_runs");
+                for v in mon.violations[before..].to_vec() {
+                    found.push(Found { violation: v, case: AnyCase::Stream(sc.clone()) });
+                }
+            }
             run_and_collect(case, mon, found);
         }
         80..=91 => {
